@@ -201,7 +201,7 @@ def _range_parts(ctx, r, kind, ln):
     if kind == 'RangeFull': return bv64(0), ln
     raise EngineError('range kind ' + kind)
 
-@model(r'^<(?:str|String) as Index(?:Mut)?<(?:std::ops::)?(RangeFrom|RangeTo|Range|RangeFull)(?:<usize>)?>>::index(?:_mut)?$')
+@model(r'^<(?:str|(?:std::string::)?String) as Index(?:Mut)?<(?:std::ops::)?(RangeFrom|RangeTo|Range|RangeFull)(?:<usize>)?>>::index(?:_mut)?$')
 def m_str_index(ctx):
     kind = re.search(r'(RangeFrom|RangeTo|RangeFull|Range)', ctx.callee).group(1)
     v = as_str(ctx, ctx.args[0]); a, b = _range_parts(ctx, ctx.args[1], kind, v.len)
